@@ -161,9 +161,12 @@ func (r *replicator) Load(ctx context.Context, entries []ipfslog.Entry) {
 	verifhook.At("repl.load.enter", r, r.store, ctx, cidsStrings)
 	defer verifhook.At("repl.load.exit", r, r.store)
 
-	// bind context with root ctx
-	ctx, cancel := r.rootContextWithCancel(ctx)
-	defer cancel()
+	// The task table and the queue are shared by every request, so the work
+	// itself runs for as long as the replicator does: the caller's context
+	// only bounds how long this call waits for it. A request that is
+	// cancelled must not leave queued items behind that nobody will run.
+	callerCtx := ctx
+	ctx, cancel := r.rootContextWithCancel(context.WithoutCancel(ctx))
 
 	wg := sync.WaitGroup{}
 
@@ -193,7 +196,17 @@ func (r *replicator) Load(ctx context.Context, entries []ipfslog.Entry) {
 	}
 	r.muProcess.Unlock()
 
-	wg.Wait()
+	done := make(chan struct{})
+	go func() {
+		wg.Wait()
+		cancel()
+		close(done)
+	}()
+
+	select {
+	case <-done:
+	case <-callerCtx.Done():
+	}
 }
 
 // processOne wait for a process slot then process one element of the queue
@@ -252,17 +265,12 @@ func (r *replicator) processHash(ctx context.Context, item processItem) ([]cid.C
 	cprogress := make(chan iface.IPFSLogEntry)
 	defer close(cprogress)
 	go func() {
-		var entry iface.IPFSLogEntry
-		for {
-
-			select {
-			case <-ctx.Done():
-				return
-			case entry = <-cprogress:
-			}
-
+		// drain until the fetch has returned and closed the channel: the
+		// fetcher sends without looking at the context, so leaving early
+		// would block it for ever
+		for entry := range cprogress {
 			if entry == nil {
-				return
+				continue
 			}
 
 			if err := r.emitters.evtLoadProgress.Emit(NewEventLoadProgress(entry)); err != nil {
